@@ -252,6 +252,12 @@ kml_pair!(c19_gate_kml_tombstone_purge, c_tombstone(), c_purge(), [P::Tombstone]
 kml_pair!(c19_gate_kml_upsert_update, c_upsert_concept(), c_update(), [P::Create, P::Update], [P::Update]);
 kml_pair!(c19_gate_kml_merge_correct, c_merge(), c_correct_evidence(), [P::MergeIdentity, P::Maintain], [P::Create, P::Maintain]);
 
+// ---------------------------------------------------------------------------
+// KQL
+// ---------------------------------------------------------------------------
+
+fn w_concept() -> WhereClause {
+    WhereClause::Concept { variable: String::new(), matcher: BTreeMap::new() }
 }
 fn w_belief() -> WhereClause {
     WhereClause::Belief { variable: String::new(), target: BeliefTarget::Proposition(String::new()) }
